@@ -2,3 +2,5 @@ import LhasaV.Props.C18
 open LhasaV.Props.C18
 #print axioms safe_output_printable
 #print axioms safe_keeps_printable
+#print axioms listing_printable
+#print axioms print_banners_printable
